@@ -33,6 +33,8 @@ import (
 type tsExit struct{}
 
 func c(v int) int { return v }
+func cs(v string) string { return v }
+func cb(v bool) bool { return v }
 
 func tsprint(args ...any) {
 	parts := []string{}
@@ -112,6 +114,9 @@ func goRender(prefix string, stmts []ts.Stmt) (decls string, body string) {
 						if len(x.Tys) > i {
 							t = x.Tys[i]
 						}
+						if i < len(x.Reuse) && x.Reuse[i] {
+							continue // a name re-used by ":=": declared by its first definition
+						}
 						dsb.WriteString("var " + n + " " + goType(t) + "\n")
 					}
 					if len(x.Vals) > 0 {
@@ -143,9 +148,22 @@ func goRender(prefix string, stmts []ts.Stmt) (decls string, body string) {
 				}
 				out = append(out, x)
 			case ts.Switch:
-				for i := range x.Cases {
-					x.Cases[i].Body = conv(x.Cases[i].Body, false)
+				cases := make([]ts.Case, len(x.Cases))
+				copy(cases, x.Cases)
+				for i := range cases {
+					cases[i].Body = conv(cases[i].Body, false)
+					// Go rejects duplicate CONSTANT cases (case "": ... case "":) - the language under test does not:
+					// string and bool cases go through an identity function
+					if !cases[i].Default && cases[i].E != nil {
+						switch cases[i].E.T() {
+						case ts.TString:
+							cases[i].E = ts.Call{Name: "cs", Args: []ts.Expr{cases[i].E}, Rets: []ts.Type{ts.TString}}
+						case ts.TBool:
+							cases[i].E = ts.Call{Name: "cb", Args: []ts.Expr{cases[i].E}, Rets: []ts.Type{ts.TBool}}
+						}
+					}
 				}
+				x.Cases = cases
 				out = append(out, x)
 			case ts.For:
 				x.Body = conv(x.Body, false)
